@@ -48,6 +48,9 @@ CHECKS = {
  "C05": ("model_checking", "Bounded-exhaustive enumeration of a query family generated from a pattern AST (roots: named kinds, wildcards, anonymous, ERROR, MISSING variants, supertype, supertype/subtype; 0-2 children with fields, negated fields, anchors in every slot, alternation, quantifiers, captures on every node) for three languages, crossed with every tree of a bounded document family (valid, erroneous, edited-and-reparsed); the real cursor's matches are compared with an independent backtracking matcher written from the query documentation: soundness for all queries, exact completeness for quantifier-free ones, plus compile-time acceptance.",
          "Wildcards do not match ERROR nodes (reconciled with the implementation; the documentation is silent). Anchors next to anonymous/wildcard/quantified children and supertype patterns with children are outside the asserted family. Two known findings about over-eager rejection.",
          "bounded-exhaustive enumeration of (query, tree) with a reference backtracking matcher", "DESIGN.md §2 C05"),
+ "C11": ("model_checking", "For every (query, tree) of a bounded family (single patterns, all ordered two-pattern combinations, predicate queries; stmts and jsonish trees, valid and erroneous) every cursor configuration is enumerated: capture stream vs match stream, EVERY byte and point range (intersecting and containing variants), cursor reuse histories, max start depths, match limits 1/2/3/4/8 with the exceeded flag, remove_match at every capture position, and the Rust iterators against our own evaluation of the text predicates with contiguous and chunked text providers.",
+         "Capture order asserted on start bytes; with quantifiers captures are compared as sets. Two known findings tied to the wildcard-root optimisation.",
+         "bounded-exhaustive enumeration of (query, tree, cursor configuration) with cross-view consistency oracles", "DESIGN.md §2 C11"),
 }
 REASON_WIP = "check not built yet (work in progress; see DESIGN.md build order)"
 def main():
